@@ -1271,8 +1271,11 @@ def dmg_check(ctx, geo, st, scenario, via_s3, mout):
                 ctx.disagree(feats + ';symptom=coq_must_fail_vs_numpy', case, must_fail, mout[8],
                              'extracted spec_must_fail differs from the numpy statement', kind='tie')
             if not mout[10]:     # the model then has an empty lost map: only the spec is compared below
-                ctx.disagree('part=vfw_damage;symptom=lost_map_source_not_modelled', case, None, None,
-                             'the lost-map section of vis_flags_weights.py is not the modelled code', kind='tie')
+                if not ctx.searching:
+                    # (when an obligation is already reported as broken - the proof that needs this flag is one - this is
+                    # not a failing INPUT: it was a false alarm on the benign refactor C08-3)
+                    ctx.disagree('part=vfw_damage;symptom=lost_map_source_not_modelled', case, None, None,
+                                 'the lost-map section of vis_flags_weights.py is not the modelled code', kind='tie')
                 model = None
         del n
     ctx.traces_validated += 1
@@ -2083,6 +2086,10 @@ def run(ctx):
             try:
                 run_witness(ctx, f.get('witness', {}), tmp)
             except Exception as e:
+                if ctx.searching and 'does not compile on this tree' in str(e):
+                    # the Model file of this witness' wire is left out of the driver because a translator item / proof is
+                    # already reported as broken: not a failing input (was a false alarm on benign refactors C08-1, C08-2)
+                    continue
                 ctx.disagree('witness-error:%s' % f.get('id'), f.get('witness'), repr(e), None, 'witness could not be run', kind='tie')
         if not ctx.model_ok:
             search_without_model(ctx, tmp)
